@@ -63,7 +63,13 @@ def make_records(tier, seed):
         for start, end in ((0, 10), (rng.randint(0, 3), rng.randint(4, 12)), (2, 2)):
             try:
                 text = su.format_int_list(given)
-                parsed = su.parse_int_list(text)
+                handed = su.parse_int_list(text)
+                parsed = list(handed)
+                # the caller owns the list it was handed: what it does to it must not show in any later call (the same
+                # text is parsed again for the next window)
+                if isinstance(handed, list):
+                    handed.reverse()
+                    handed.append(1000000)
                 comp = su.complement_int_list(text, range_start=start, range_end=end)
                 rec = {"kind": "int", "members": members, "given": given, "text": cps(text), "parsed": parsed, "comp": cps(comp),
                        "start": start, "end": end}
